@@ -31,8 +31,12 @@ func runC02(p *eng.Prog, r *eng.Report, tier string) {
 	c01Session(c)
 	c02First(c, "C02.2", nf, firstParam)
 	c02Masks(c)
-	c02Closures(c)
+	c02Closures(c, "C02.5", "")
 	c02StartTLS(c)
+	// the default TLS configuration takes ServerName from the session's
+	// address: the address must not be replaceable by the peer's next stream
+	// header (C12.4: compared with snapshots taken before the header is read)
+	c12Restart(c)
 	// C02.9 "whatever the peer answers the outcome is TLS or an error": no
 	// error of the feature loop or of the STARTTLS closures is swallowed (the
 	// pending-error analysis of C04.1 restricted to these functions)
@@ -234,9 +238,12 @@ func c02Masks(c *cx) {
 }
 
 // C02.5 feature closures are stateless.
-func c02Closures(c *cx) {
+func c02Closures(c *cx, id, only string) {
 	n := 0
 	for _, l := range sfLiterals(c) {
+		if only != "" && l.fn.Short != only {
+			continue
+		}
 		for _, fld := range []string{"List", "Parse", "Negotiate"} {
 			v := structLitField(l.cl, fld)
 			lit, ok := v.(*ast.FuncLit)
@@ -277,14 +284,21 @@ func c02Closures(c *cx) {
 				}
 				return true
 			})
+			if only != "" && cf != nil {
+				freshDecodeTargets(c, id, cf, 0)
+			}
 			name := l.fn.Short + "." + fld
 			if cf != nil {
 				name = cf.Short + " (" + fld + ")"
 			}
-			c.r.Check("C02.5", l.fn, "closure "+name, "W: no store to a variable captured from outside the closure (features are reused between sessions)", badPos, bad == "", bad)
+			c.r.Check(id, l.fn, "closure "+name, "W: no store to a variable captured from outside the closure (features are reused between sessions)", badPos, bad == "", bad)
 		}
 	}
-	c.r.Floor("C02.5", "feature closures", n, 16)
+	if only == "" {
+		c.r.Floor(id, "feature closures", n, 16)
+	} else {
+		c.r.Floor(id, "feature closures of "+only, n, 3)
+	}
 }
 
 func rootIdent(e ast.Expr) *ast.Ident {
